@@ -121,6 +121,12 @@ class Base(probe.Contract):
         self.immut(st)
         self.plain_unchanged(st)
         check_returned(self.api, res)
+        if not self.is_inplace(args, kwargs):
+            # "documented to return a new object": the result must not BE one of the operands (a later in-place call on the
+            # "result" would otherwise be a call on the operand; seen with a shortcut returning self for real trains in conj)
+            for t in _find_tts([res], []):
+                same = any(t is a for a in st['tts'])
+                core.ctx().check(self.api, 'result_is_a_new_object', not same, shape_tags(t) if same else (), None, prop='C06')
         if any(s is None for s in st['snaps']):
             return
         try:
@@ -520,7 +526,10 @@ class Tensordot(Base):
             a = b = st['snaps'][0]
         else:
             a, b = st['snaps'][0], st['snaps'][1]
-        if not (_std(a) and _std(b)) or not _is_tt(res) or not tt_consistent(res)[0]:
+        if not _is_tt(res) or not tt_consistent(res)[0]:
+            return
+        if not (_std(a) and _std(b)):
+            self.value_open_boundary(a, b, res, v)
             return
         k = int(v['num_axes'])
         want = tensordot_oracle(a.dense(), a.order, b.dense(), b.order, k, v['mode'])
@@ -540,6 +549,46 @@ class Tensordot(Base):
         if self.is_inplace(args, kwargs):
             self.ck('overwrite_returns_self', res is args[0], [a, b])
         core.ctx().sig(self.api, v['mode'], k, k == a.order, k == b.order, a.shape_sig(), b.shape_sig(), bool(v['overwrite']))
+
+
+def _tensordot_open_boundary(self, a, b, res, v):
+    """operands whose boundary rank on the NON-contracted side is larger than 1 (e.g. the factors returned by svd): the free
+    boundary indices stay free, the result is the documented contraction slice by slice"""
+    mode, k = v['mode'], int(v['num_axes'])
+    sa, sb = mode.split('-')
+    need_a = a.ranks[-1] if sa == 'last' else a.ranks[0]
+    need_b = b.ranks[0] if sb == 'first' else b.ranks[-1]
+    if need_a != 1 or need_b != 1 or k > a.order or k > b.order or (k == a.order and k == b.order):
+        return
+    fa = a.ranks[0] if sa == 'last' else a.ranks[-1]
+    fb = b.ranks[-1] if sb == 'first' else b.ranks[0]
+    Da, Db = a.dense_b(), b.dense_b()
+    Da = Da[..., 0] if sa == 'last' else Da[0]        # free boundary axis of a: first (last-*) or last (first-*)
+    Db = Db[0] if sb == 'first' else Db[..., 0]       # free boundary axis of b: last (*-first) or first (*-last)
+    got = dense_b_cores(res.cores)
+    a_first = sa == 'last'  # result = a's remaining cores followed by b's (last-*), or b's followed by a's (first-*)
+    want_b = (fa, fb) if a_first else (fb, fa)
+    tags = ['mode=' + mode, 'open_boundary']
+    if (got.shape[0], got.shape[-1]) != want_b:
+        self.ck('value', False, [a, b], {'mode': mode, 'k': k, 'result_boundary': [got.shape[0], got.shape[-1]], 'want_boundary': list(want_b)}, tags)
+        return
+    sc = float(np.linalg.norm(Da)) * float(np.linalg.norm(Db)) + 1e4 * a.floor() * b.floor()
+    ok, worst = True, 0.0
+    for i in range(fa):
+        for j in range(fb):
+            A = Da[i] if sa == 'last' else Da[..., i]
+            B = Db[..., j] if sb == 'first' else Db[j]
+            want = tensordot_oracle(A, a.order, B, b.order, k, mode)
+            g = got[i, ..., j] if a_first else got[j, ..., i]
+            if g.shape != want.shape:
+                ok = False
+                break
+            worst = max(worst, relerr(g, want, sc))
+    self.ck('value', ok and worst <= TOL, [a, b], {'mode': mode, 'k': k, 'relerr': worst, 'a_ranks': a.ranks, 'b_ranks': b.ranks}, tags)
+    core.ctx().sig(self.api, mode, k, 'open_boundary', fa, fb)
+
+
+Tensordot.value_open_boundary = _tensordot_open_boundary
 
 
 class RankTensordot(Base):
